@@ -22,6 +22,12 @@ KNOWN = [
     ("C01", "write-raises/RecursionError/mv",
      "third-party multivolumefile recurses once per volume crossed by a single write(): a 64-byte volume size with a 64 KiB member (py7zr hands whole I/O blocks to write()) exceeds "
      "Python's recursion limit. The volumes written before the error are discarded by the failing session. Not repairable inside py7zr without re-chunking every write for that library."),
+    ("C20", "codec-library/pyppmd-encoder-memory",
+     "pyppmd's Ppmd7Encoder alone (no py7zr code) retains about 1 MiB of memory per MiB it is fed for short-period data (600 MiB in -> 600 MiB RSS rise, 230 KB out): writing a 1.5 GiB "
+     "member of that texture with a PPMd chain exceeds the 700 MiB budget although py7zr hands the data over in 1 MiB blocks. Third-party native code."),
+    ("C20", "codec-library/inflate64-encoder-memory",
+     "inflate64's Deflater alone (no py7zr code) retains about 1 MiB per MiB it is fed (400 MiB in -> 403 MiB RSS rise): writing members above roughly 700 MiB with Deflate64 exceeds the "
+     "budget. Third-party native code."),
     ("C05", "interpreter-died/crash:SIGABRT/coder-030401-props-*ffffffff",
      "a PPMd coder whose 5-byte property declares a 4 GiB model (mem=0xFFFFFFFF): when that allocation fails (address-space limit, little free memory) pyppmd aborts the process "
      "('double free or corruption') instead of raising MemoryError. Input: reference-written archive with coder 030401 and props ffffffffff / 06ffffffff. Third-party native code."),
